@@ -23,6 +23,13 @@ func init() {
 
 func init() {
 	properties["C01"] = &propSpec{ID: "C01",
+		Bounds: []string{
+			"modes 16 and 32; 36 instruction forms (MOV r/r r/imm r/m m/r m/imm Sreg CRn acc-moffs; ADD SUB CMP AND OR XOR r/r r/imm r/m m/r m/imm; NOT; SHL SHR SAR; IMUL; IN OUT; PUSH POP reg Sreg imm mem; INT; RET; LGDT) x widths 8/16/32",
+			"immediates: signed 64-bit solver variables restricted to decimal literals of 1..10 digits (quick: digit classes 1,3,5,10); ports/counts/INT numbers 0..255",
+			"registers: quick = one position sweeps all 8 registers against one fixed partner, immediate forms use 4 registers incl. the accumulator; thorough = all 8 in every position",
+			"memory operands: one representative shape per addressing class (C02 covers the address itself)",
+		},
+		OutsideBounds: []string{"literals of more than 10 digits", "hex and character literals as symbolic values", "segment overrides, SHORT/NEAR/FAR keywords on non-branches", "mnemonics not listed (their silent mis-assembly is C07's subject)", "quick tier: the decimal-text-to-number step of the grammar action for literals (thorough tier includes it)"},
 		Quick:    tierSpec{Harnesses: []harnessSpec{{Func: gp + "internal/zzverif.VC01", Discover: 3, Reach: []string{"c01.decode.accepted"}}}},
 		Thorough: tierSpec{Harnesses: []harnessSpec{{Func: gp + "internal/zzverif.VC01", Discover: 3, Params: map[string]int{"alldigits": 1, "allregs": 1}, Reach: []string{"c01.decode.accepted"}}}},
 	}
